@@ -3,6 +3,7 @@ package mon
 import (
 	"bytes"
 	"fmt"
+	"reflect"
 	"time"
 
 	"github.com/go-i2p/common/certificate"
@@ -33,11 +34,12 @@ type entryOut struct {
 	hasRem bool
 	whole  bool
 	err    error
+	val    any
 }
 
 func fromParser(c *core.Ctx, p lib.Parser, in []byte) (entryOut, bool) {
 	out, panicked, _, _ := callParser(c, p, in)
-	return entryOut{name: p.ID(), ok: out.Accepted, ser: out.Ser, rem: out.Rem, hasRem: p.HasRem, whole: p.Whole, err: out.Err}, panicked
+	return entryOut{name: p.ID(), ok: out.Accepted, ser: out.Ser, rem: out.Rem, hasRem: p.HasRem, whole: p.Whole, err: out.Err, val: out.Val}, panicked
 }
 
 // compareEntries applies the oracle to a set of results for the same input.
@@ -95,6 +97,52 @@ func compareEntries(c *core.Ctx, class string, in []byte, sh gen.Shape, outs []e
 			c.Nontrivial([]byte(class), in)
 		}
 	}
+}
+
+// c19AfterBufferReuse: the values the alternative entry points returned for one input still
+// serialise identically after the caller has reused (overwritten) the buffer it passed in. Only
+// a DISAGREEMENT between entry points is reported here (one value changed, another did not);
+// whether values may follow the caller's buffer at all is the subject of C08. Applied to the
+// structure kinds C08 lists, for which no entry point is specified to alias its input.
+func c19AfterBufferReuse(c *core.Ctx, class, kind string, in []byte, outs []entryOut) {
+	switch kind {
+	case "sig", "keycert", "cert", "dest", "rident", "dest_ls", "lease", "lease2", "kac":
+	default:
+		return
+	}
+	var acc []entryOut
+	for _, o := range outs {
+		if o.ok && o.val != nil && len(o.ser) > 0 {
+			acc = append(acc, o)
+		}
+	}
+	if len(acc) < 2 {
+		return
+	}
+	orig := append([]byte{}, in...)
+	for i := range in {
+		in[i] = ^in[i]
+	}
+	var after [][]byte
+	for _, o := range acc {
+		b, ok := reserialise(reflect.ValueOf(o.val))
+		if !ok {
+			b = nil
+		}
+		after = append(after, append([]byte{}, b...))
+	}
+	copy(in, orig)
+	for k := 1; k < len(acc); k++ {
+		if after[0] == nil || after[k] == nil {
+			continue
+		}
+		if !bytes.Equal(after[0], after[k]) {
+			c.Violate(acc[0].name+" <-> "+acc[k].name, "serialisation-differs-after-caller-reuses-buffer", gen.Shape{"class": class, "a": acc[0].name, "b": acc[k].name}, orig,
+				"values that serialised identically differ once the caller overwrote the input buffer: "+describeDiff(after[0], after[k]))
+			return
+		}
+	}
+	c.Bucket("agree-after-buffer-reuse/" + class)
 }
 
 // parser groups: entry points that read the same structure from bytes.
@@ -172,6 +220,7 @@ func runC19(c *core.Ctx) {
 				outs = append(outs, o)
 			}
 			compareEntries(c, gname, in, gen.Shape{"input": classHead(class)}, outs)
+			c19AfterBufferReuse(c, gname, kind, in, outs)
 			if i < 2 {
 				c.Sample(gen.Shape{"group": g, "input_class": class, "len": len(in)})
 			}
@@ -294,6 +343,38 @@ func runC19(c *core.Ctx) {
 			s, cr = r.Pick(65536), r.Pick(65536)
 		}
 		in := rm.KeyCert(s, cr, nil).Encode()
+		if i%5 == 4 {
+			// a KEY certificate declaring fewer than four payload bytes, followed by the bytes that
+			// would have been the rest of the key types: both routes must judge only the declared part
+			short := r.Pick(4)
+			full := in
+			in = append([]byte{5, 0, byte(short)}, full[3:]...)
+			var a, b entryOut
+			var e1, e2 error
+			c.Call("key_certificate.NewKeyCertificate(bytes)", in, func() {
+				k, _, err := key_certificate.NewKeyCertificate(in)
+				e1 = err
+				if err == nil && k != nil {
+					a = entryOut{ok: true, ser: k.Bytes()}
+				}
+			})
+			c.Call("key_certificate.KeyCertificateFromCertificate(ReadCertificate)", in, func() {
+				ct, _, err := certificate.ReadCertificate(in)
+				if err != nil {
+					e2 = err
+					return
+				}
+				k, err := key_certificate.KeyCertificateFromCertificate(ct)
+				e2 = err
+				if err == nil && k != nil {
+					b = entryOut{ok: true, ser: k.Bytes()}
+				}
+			})
+			a.name, a.err, a.whole = "key_certificate.NewKeyCertificate(bytes)", e1, true
+			b.name, b.err, b.whole = "key_certificate.KeyCertificateFromCertificate(ReadCertificate)", e2, true
+			compareEntries(c, "keycert-short-payload-with-trailing-bytes", in, gen.Shape{"sig": s, "crypto": cr, "declared": short}, []entryOut{a, b})
+			return
+		}
 		mk := func(name string, f func() ([]byte, error)) entryOut {
 			var b []byte
 			var err error
@@ -357,6 +438,91 @@ func runC19(c *core.Ctx) {
 			if !a.ok || !bytes.Equal(w.ser, a.ser) {
 				c.Violate("key_certificate.NewKeyCertificateWithTypes <-> key_certificate.NewKeyCertificate(bytes)", "serialisation-differs", gen.Shape{"sig": s, "crypto": cr}, in, describeDiff(a.ser, w.ser))
 			}
+		}
+	})
+
+	// the builder driven through call sequences (including a reused builder) versus the direct
+	// constructor with the type and payload those calls document as the outcome:
+	//   WithPayload(p), WithKeyTypes(s,c)  => KEY certificate with the 4-byte key-type payload
+	//   WithKeyTypes(s,c), WithPayload(p)  => KEY certificate with payload p ("overrides")
+	//   WithKeyTypes(s1,c1).Build(), WithKeyTypes(s2,c2).Build() on one builder => second is (s2,c2)
+	c.Job("builder-sequences", c.N(1500, 30000), func(i int, r *core.Rand) {
+		s, cr := r.Pick(13), r.Pick(9)
+		if r.Chance(1, 4) {
+			s, cr = r.Pick(65536), r.Pick(65536)
+		}
+		p := r.Bytes(4 + r.Pick(12))
+		if r.Chance(1, 3) {
+			p = r.Bytes(r.Pick(4))
+		}
+		direct := func(payload []byte) entryOut {
+			o := entryOut{name: "certificate.NewCertificateWithType(KEY, payload)", whole: true}
+			c.Call(o.name, payload, func() {
+				ct, err := certificate.NewCertificateWithType(certificate.CERT_KEY, payload)
+				o.err = err
+				if err == nil && ct != nil {
+					o.ok, o.ser = true, ct.Bytes()
+				}
+			})
+			return o
+		}
+		built := func(name string, steps func(bd *certificate.CertificateBuilder) error) entryOut {
+			o := entryOut{name: name, whole: true}
+			c.Call(name, p, func() {
+				bd := certificate.NewCertificateBuilder()
+				if err := steps(bd); err != nil {
+					o.err = err
+					return
+				}
+				ct, err := bd.Build()
+				o.err = err
+				if err == nil && ct != nil {
+					o.ok, o.ser = true, ct.Bytes()
+				}
+			})
+			return o
+		}
+		ktp, kerr := certificate.BuildKeyTypePayload(s, cr)
+		sh := gen.Shape{"sig": s, "crypto": cr, "payload_len": len(p)}
+		switch i % 3 {
+		case 0:
+			if kerr != nil {
+				return
+			}
+			b := built("CertificateBuilder: WithPayload, WithKeyTypes, Build", func(bd *certificate.CertificateBuilder) error {
+				bd.WithPayload(p)
+				_, err := bd.WithKeyTypes(s, cr)
+				return err
+			})
+			compareEntries(c, "builder-sequence/payload-then-keytypes", p, sh, []entryOut{direct(ktp), b})
+		case 1:
+			b := built("CertificateBuilder: WithKeyTypes, WithPayload, Build", func(bd *certificate.CertificateBuilder) error {
+				if _, err := bd.WithKeyTypes(s, cr); err != nil {
+					return err
+				}
+				bd.WithPayload(p)
+				return nil
+			})
+			compareEntries(c, "builder-sequence/keytypes-then-payload", p, sh, []entryOut{direct(p), b})
+		default:
+			if kerr != nil {
+				return
+			}
+			s0, c0 := r.Pick(13), r.Pick(9)
+			b := built("CertificateBuilder reused: WithKeyTypes, Build, WithKeyTypes, Build", func(bd *certificate.CertificateBuilder) error {
+				if r.Chance(1, 2) {
+					bd.WithPayload(p)
+				}
+				if _, err := bd.WithKeyTypes(s0, c0); err != nil {
+					return err
+				}
+				if _, err := bd.Build(); err != nil {
+					return err
+				}
+				_, err := bd.WithKeyTypes(s, cr)
+				return err
+			})
+			compareEntries(c, "builder-sequence/reused-builder", p, sh, []entryOut{direct(ktp), b})
 		}
 	})
 
